@@ -101,7 +101,7 @@ def handleFonts (o : Json) : Except String Verdict := do
       | none => missing[0]?
     match pick with
     | some (style, r) =>
-      return .specfalse s!"missing-glyph:{style}:U+{hex4 r}" s!"the {style} subset has no glyph for U+{hex4 r}, which the SVG draws in that font and the full font has ({missing.size} missing in this document)"
+      return .specfalse s!"missing-glyph:{style}" s!"the {style} subset has no glyph for U+{hex4 r}, which the SVG draws in that font and the full font has ({missing.size} missing in this document)"
     | none => return .ok
 
 def handleC47 (j : Json) : Except String Verdict := do
